@@ -286,6 +286,46 @@ def replay(unit_name, inp, obligation=""):
         return {"failed": False, "detail": "no collision among the adversarial calls"}
     if "ownership" in unit_name:
         return _replay_ownership(unit_name)
+    if unit_name.startswith("ignore_nan_inf"):
+        import numpy as np
+        from dclab import kde_methods, cached
+        cached.Cache.clear_cache()
+        rng = np.random.RandomState(4)
+        x, y = rng.normal(size=80), rng.normal(size=80)
+        for nm in ("kde_histogram", "kde_gauss", "kde_multivariate"):
+            fn = getattr(kde_methods, nm)
+            d1 = fn(x.copy(), y.copy())
+            ref = np.array(d1, copy=True)
+            try:
+                d1 /= d1.max()
+                d1[0] = -5
+            except ValueError:
+                pass
+            d2 = fn(x.copy(), y.copy())
+            if not np.allclose(d2, ref, equal_nan=True):
+                return {"failed": True, "detail": f"{nm}: modifying the returned density in place changed the "
+                                                  f"result of the next identical call (max {np.nanmax(d2)} vs {np.nanmax(ref)})"}
+        return {"failed": False, "detail": "KDE results are fresh arrays"}
+    if unit_name.startswith("file_monitoring_lru_cache"):
+        import os, pathlib, tempfile
+        from dclab import util
+        with tempfile.TemporaryDirectory(prefix="c17_") as td:
+            p = pathlib.Path(td) / "f.bin"
+            p.write_bytes(b"a" * 100)
+            h1 = util.hashfile(p)
+            st = p.stat()
+            p.write_bytes(b"b" * 150)                   # different size ...
+            os.utime(p, ns=(st.st_atime_ns, st.st_mtime_ns))   # ... same modification time
+            h2 = util.hashfile(p)
+            want = util.hashfile.__wrapped__(p)
+            if h2 != want:
+                return {"failed": True, "detail": "hashfile returned the stale hash of the old content after the "
+                                                  "file changed its size but kept its mtime"}
+            p.write_bytes(b"c" * 150)                   # same size, new mtime
+            os.utime(p, ns=(st.st_atime_ns, st.st_mtime_ns + 1))
+            if util.hashfile(p) != util.hashfile.__wrapped__(p):
+                return {"failed": True, "detail": "hashfile returned a stale hash after the mtime changed"}
+        return {"failed": False, "detail": "file-hash cache follows size and mtime"}
     return {"failed": None, "detail": "no replay for " + unit_name}
 
 
@@ -325,8 +365,7 @@ def _try_modify(feat, data, what):
 
 
 def bounded_inputs(unit_name, rng):
-    if unit_name.startswith("Cache.__call__") or "ownership" in unit_name:
-        yield {}
+    yield {}
 
 
 # ---------------------------------------------------------------- ownership of cached arrays
